@@ -14,7 +14,8 @@ TITLE = "Translations are faithful to the program's declarations and annotations
 DECIDES = ("Decided: whether a declared type / explicit type argument is printed is controlled by exactly the attribute "
            "the mutations write (printed and tested attributes per language and node kind, agreement with the attributes "
            "TypeOverwriting writes and omit_type clears); visit_new / visit_func_call drop type arguments only under "
-           "can_infer_type_args; each declaration visitor reads every attribute its language can express; the offsets "
+           "can_infer_type_args; each declaration visitor reads every attribute its language can express and consults "
+           "each boolean modifier independently of the other modifiers; the offsets "
            "used to slice children results follow the order in which children() concatenates; every visitor has net "
            "effect +1 on the result stack on every path and pops exactly the results of the children it visited.")
 NOT_DECIDED = ("that the text is a correct rendering (literal values, operator spelling, bracket balance, keyword "
